@@ -44,6 +44,8 @@ def elem_kind_of(x):
 def conforms_item(x, item_kind):
     if item_kind == "int":
         return isinstance(x, int) and not isinstance(x, bool)
+    if item_kind == "optint":
+        return x is None or (isinstance(x, int) and not isinstance(x, bool))
     if item_kind == "str":
         return isinstance(x, str)
     return elem_kind_of(x) == item_kind
@@ -161,16 +163,16 @@ class ElementModel:
             if ik == "kitem" and isinstance(v, str):
                 e = Elem("kitem", attrs=new_spec_attrs("kitem", {"k": v}))
             elif ik in ("leaf", "kitem") and isinstance(v, dict):
-                if not attrs_type_ok(ik, {**kw, **v}):
+                if not attrs_type_ok(ik, {**v, **kw}):
                     raise Raises(TypeError, ValueError)
-                return Elem(ik, attrs=new_spec_attrs(ik, {**kw, **v}))
+                return Elem(ik, attrs=new_spec_attrs(ik, {**v, **kw}))
             else:
                 e = Elem.of(v)
                 e.src = None  # a new element: no identity expectation
         elif old is not None and not replace:
             e = Elem(old.kind, old.value, dict(old.attrs) if old.attrs is not None else None, src=None)
         else:
-            if ik == "int":
+            if ik in ("int", "optint"):
                 raise Unmodelled("element built from nothing")
             if not attrs_type_ok(ik, kw):
                 raise Raises(TypeError, ValueError)
@@ -185,8 +187,8 @@ class ElementModel:
 
     def check_item_type(self, e):
         ik = self.item_kind
-        if ik == "int":
-            if not (e.kind == "plain" and conforms_item(e.value, "int")):
+        if ik in ("int", "optint"):
+            if not (e.kind == "plain" and conforms_item(e.value, ik)):
                 raise Raises(ValueError, TypeError)
         elif e.kind != ik or not attrs_type_ok(ik, e.attrs):
             raise Raises(ValueError, TypeError)
@@ -546,9 +548,10 @@ class HostModel:
         """-> attrs dict of the resulting nested Leaf (documented pipeline), or raises Unmodelled."""
         if value is not _NOARG:
             if isinstance(value, dict):
-                if not attrs_type_ok("leaf", {**kw, **value}):
+                # a dict stands for constructor arguments; keywords given next to it are applied on top of the result
+                if not attrs_type_ok("leaf", {**value, **kw}):
                     raise Unmodelled("ill-typed nested keywords")
-                return new_spec_attrs("leaf", {**kw, **value})
+                return new_spec_attrs("leaf", {**value, **kw})
             if elem_kind_of(value) != "leaf":
                 raise Unmodelled("non-leaf value")
             attrs = spec_attrs(value)
